@@ -109,6 +109,53 @@ local intops = {
   frominteger = function(i) return hex_of_limbs(bn.frominteger(i)) end,
 }
 
+-- Lua values of the mixed-argument ops: i:<int> b:<bint> s:<hexbytes> f:<m>:<e>:<hexfloat> f:inf f:-inf f:nan
+local function value_of_token(t)
+  local k, rest = t:sub(1,1), t:sub(3)
+  if k == 'i' then return int_of_hex(rest)
+  elseif k == 'b' then return limbs_of_hex(rest)
+  elseif k == 's' then return bytes_of_hex(rest)
+  elseif k == 'f' then
+    if rest == 'inf' then return math.huge elseif rest == '-inf' then return -math.huge
+    elseif rest == 'nan' then return 0.0/0.0 end
+    local hexfloat = rest:match('^[^:]*:[^:]*:(.*)$')
+    return assert(tonumber(hexfloat), 'bad float token') + 0.0
+  end
+  error('bad value token ' .. t)
+end
+
+local function num_token(v)
+  if math.type(v) == 'integer' then return 'i ' .. hex_of_int(v) end
+  if v ~= v then return 'flt:nan' end
+  return 'flt:' .. string.format('%a', v)
+end
+
+local function bint_or(v, other)   -- a bint result as limbs, anything else as the given token
+  if bn.isbint(v) then return hex_of_limbs(v) end
+  return other
+end
+
+local function hex_of_bytes(s)
+  if #s == 0 then return '-' end
+  return (s:gsub('.', function(c) return string.format('%02x', c:byte()) end))
+end
+
+local vops = {
+  tobint = function(a) return bint_or(bn.tobint(a), 'nil') end,
+  new = function(a) return hex_of_limbs(bn.new(a)) end,
+  madd = function(a, b) return bint_or(bn.__add(a, b), 'fallback') end,
+  msub = function(a, b) return bint_or(bn.__sub(a, b), 'fallback') end,
+  mmul = function(a, b) return bint_or(bn.__mul(a, b), 'fallback') end,
+  mlt = function(a, b) return tostring(bn.__lt(a, b)) end,
+  mle = function(a, b) return tostring(bn.__le(a, b)) end,
+  meq = function(a, b) return tostring(bn.eq(a, b)) end,
+  trunc = function(a) return bint_or(bn.trunc(a), 'nil') end,
+  floor = function(a) return hex_of_limbs(bn.floor(a)) end,
+  ceil = function(a) return hex_of_limbs(bn.ceil(a)) end,
+  demotefloat = function(a) return num_token(bn.demotefloat(a)) end,
+  canbeintegral = function(a) return tostring(not not bn.canbeintegral(a)) end,
+}
+
 local function flag3(s)
   if s == 't' then return true elseif s == 'f' then return false end
   return nil
@@ -120,6 +167,8 @@ local function classify(msg)
     return '!err divzero'
   elseif msg:find('division overflow', 1, true) then
     return '!err overflow'
+  elseif msg:find('cannot be represented by a bint', 1, true) then
+    return '!err assert'
   elseif msg:find('nil value', 1, true) then
     return '!err nil'
   end
@@ -138,6 +187,20 @@ local function run(w)
   elseif op:sub(-2) == '_i' and ops[op:sub(1, -3)] then
     -- mixed operands: the second one is a plain Lua integer, converted by the module itself
     return ops[op:sub(1, -3)](limbs_of_hex(w[2]), int_of_hex(w[3]))
+  elseif vops[op] then
+    return vops[op](value_of_token(w[2]), w[3] and value_of_token(w[3]))
+  elseif op == 'tonumber' then
+    return num_token(bn.tonumber(limbs_of_hex(w[2])))
+  elseif op == 'fromle' then
+    return hex_of_limbs(bn.fromle(bytes_of_hex(w[2])))
+  elseif op == 'frombe' then
+    return hex_of_limbs(bn.frombe(bytes_of_hex(w[2])))
+  elseif op == 'tole' then
+    return hex_of_bytes(bn.tole(limbs_of_hex(w[2]), w[3] == 't'))
+  elseif op == 'tobe' then
+    return hex_of_bytes(bn.tobe(limbs_of_hex(w[2]), w[3] == 't'))
+  elseif op == 'todecsci' then
+    return str(bn.todecsci(limbs_of_hex(w[2]), nil, w[3] == 't'))
   elseif op == 'tobase' then
     return str(bn.tobase(limbs_of_hex(w[2]), int_of_hex(w[3]), flag3(w[4])))
   elseif op == 'frombase' then
